@@ -17,7 +17,7 @@ GUARD = 'PYSYNCOBJ_VERIF'
 # completeness, state-machine safety, committed entries never change) is an obligation of each of these
 SHARED_PROPS = {'C01': ['TierC', 'TierC2', 'TierC3', 'TierC4', 'TierC5', 'TierC6'],
                 'C02': ['C02b'],
-                'C03': ['TierC', 'TierC2', 'TierC3', 'TierC4', 'TierC5'],
+                'C03': ['TierC', 'TierC2', 'TierC3', 'TierC4', 'TierC5'], 'C05': ['C05b'],
                 'C04': ['TierC', 'TierC2', 'TierC3', 'TierC4', 'TierC5'], 'C09': ['TierC3', 'TierC4', 'TierC5', 'TierC6'],
                 'C11': ['TierC3'], 'C12': ['TierC6'], 'C17': ['TierC5'], 'C20': ['C20b']}
 
